@@ -34,6 +34,7 @@ func loadOrderTable(verifDir string) (*orderTable, error) {
 }
 
 func checkC13(c *Ctx, r *Report) {
+	defer checkEngineMapsCloned(c, r, "C13.c")
 	defer checkContainerFields(c, r, "C13.c")
 	defer checkProcessWideState(c, r, "C13.c")
 	w := c.W
@@ -536,4 +537,62 @@ func checkNoGoroutines(c *Ctx, r *Report, clause string) {
 	}
 	o := r.add(clause, "sequential", "no-goroutines-in-analysis-or-generation", fmt.Sprintf("no `go` statement in the %d analysed functions", len(c.W.SSAFuncs)), []string{"gleece"}, sites, viol)
 	o.NonTrivial = true
+}
+
+// checkEngineMapsCloned: the engines' embedded template maps (package-level) are never handed to
+// code that writes into them: what overrideTemplates / loadTemplatesExtensions (or whatever new
+// helper took their place) receive is a fresh maps.Clone on every path. A write into the
+// shared map survives the call and leaks one configuration's overrides or extensions into the
+// next generation of the same process.
+func checkEngineMapsCloned(c *Ctx, r *Report, clause string) {
+	w := c.W
+	fi := need(c, r, clause, "generator/routes.registerPartials")
+	if fi == nil {
+		return
+	}
+	viol := ""
+	var sites []string
+	n := 0
+	allInstrs(fi.SSA, true, func(f *ssa.Function, _ *ssa.BasicBlock, _ int, ins ssa.Instruction) {
+		if f != fi.SSA {
+			return
+		}
+		cl, ok := ins.(ssa.CallInstruction)
+		if !ok {
+			return
+		}
+		callee := cl.Common().StaticCallee()
+		if callee == nil || callee.Pkg == nil || !isGleecePkg(callee.Pkg.Pkg.Path()) {
+			return
+		}
+		for _, a := range cl.Common().Args {
+			mt, isMap := a.Type().Underlying().(*types.Map)
+			if !isMap || mt.Elem().String() != "string" {
+				continue
+			}
+			// only maps that can be the engines' own: origin is a load of a package-level variable, or a clone
+			for _, ov := range w.originValues(a) {
+				switch x := ov.(type) {
+				case *ssa.Call:
+					if calleeName(x) == "maps.Clone" {
+						n++
+						sites = append(sites, w.pos(cl.Pos()))
+						continue
+					}
+				case *ssa.UnOp:
+					if g, isG := x.X.(*ssa.Global); isG && g.Pkg != nil && strings.Contains(g.Pkg.Pkg.Path(), "generator/templates/") {
+						viol = fmt.Sprintf("%s: registerPartials hands %s - an engine's embedded template map itself, not a clone - to %s on some path: overrides/extensions written into it stay for the life of the process and show up in later generations that did not configure them", w.pos(cl.Pos()), short(g.String()), fnShort(callee))
+						sites = append(sites, w.pos(cl.Pos()))
+					}
+				}
+			}
+		}
+	})
+	if n < 2 && viol == "" {
+		viol = fmt.Sprintf("expected the cloned partials and extensions maps to be handed to the override/extension loaders, found %d", n)
+	}
+	if len(sites) == 0 {
+		sites = []string{w.pos(fi.Decl.Pos())}
+	}
+	r.add(clause, "fieldflow", "generator/routes.registerPartials:engine-maps-cloned", "user templates are written into clones of the engines' embedded maps, never into the maps themselves", []string{fi.Key}, sites, viol)
 }
